@@ -26,6 +26,7 @@ type formulaSite struct {
 	ra         string   // the type-named form with locals substituted (renamed AND moved)
 	via        string   // the unexported helper the site was read in, at one of its call sites
 	assume     []string // for boolean sites: conditions known to hold where the site stands (resolved NNF), see assumptionsAt
+	guard      string   // for updates of fields / elements and arguments of calls: the conditions under which the statement runs (resolved NNF conjuncts, sorted; tests of errors and nil left out)
 }
 
 func hasArith(e ast.Expr) bool {
@@ -523,6 +524,7 @@ func formulasIn(pk *packages.Package, fd *ast.FuncDecl, fn string, subst map[typ
 	}
 	fparents := parentMap(fd.Body)
 	var curStmt ast.Node
+	var guardNode ast.Node // the statement (or call) the formula being added belongs to
 	// accumulate: x = x + v, x += v, x -= v, x++ are all "+= <poly>" (the target leaves the polynomial)
 	accum := func(tok token.Token, lhs ast.Expr, p Poly, defs map[types.Object]localDef, abstract bool) (token.Token, Poly) {
 		switch tok {
@@ -577,7 +579,7 @@ func formulasIn(pk *packages.Package, fd *ast.FuncDecl, fn string, subst map[typ
 				polyAbstract = false
 				res := boolForm(info, rhs, fdefs)
 				t := tok.String() + " "
-				out = append(out, formulaSite{fn, target, tok, pos, t + named, t + abs, types.ExprString(rhs), t + res, t + ra, "", assumptionsAt(info, fparents, curStmt, fdefs)})
+				out = append(out, formulaSite{fn, target, tok, pos, t + named, t + abs, types.ExprString(rhs), t + res, t + ra, "", assumptionsAt(info, fparents, curStmt, fdefs), ""})
 				return
 			}
 		}
@@ -624,7 +626,11 @@ func formulasIn(pk *packages.Package, fd *ast.FuncDecl, fn string, subst map[typ
 		} else {
 			t4, ra = accum(tok, lhs, ra, fdefs, true)
 		}
-		out = append(out, formulaSite{fn, target, t1, pos, t1.String() + " " + named.String(), t3.String() + " " + abs.String(), types.ExprString(rhs), t2.String() + " " + res.String(), t4.String() + " " + ra.String(), "", nil})
+		site := formulaSite{fn: fn, target: target, tok: t1, pos: pos, named: t1.String() + " " + named.String(), abs: t3.String() + " " + abs.String(), text: types.ExprString(rhs), res: t2.String() + " " + res.String(), ra: t4.String() + " " + ra.String()}
+		if strings.ContainsAny(target, ".[") || strings.HasPrefix(target, "call:") {
+			site.guard = guardOf(info, fparents, guardNode, fdefs)
+		}
+		out = append(out, site)
 	}
 	// a predicate written as guards (`if !a { return false }; …; return c`) computes a && … && c: read as one formula
 	wholeBool := false
@@ -644,7 +650,7 @@ func formulasIn(pk *packages.Package, fd *ast.FuncDecl, fn string, subst map[typ
 				polyAbstract = false
 				if named != "" && abs != "" && (strings.HasPrefix(named, "and(") || strings.HasPrefix(named, "or(")) {
 					wholeBool = true
-					out = append(out, formulaSite{fn, "return#0", token.ASSIGN, fd.Body.Pos(), "= " + named, "= " + abs, "guards and final return", "= " + named, "= " + abs, "", nil})
+					out = append(out, formulaSite{fn, "return#0", token.ASSIGN, fd.Body.Pos(), "= " + named, "= " + abs, "guards and final return", "= " + named, "= " + abs, "", nil, ""})
 				}
 			}
 		}
@@ -725,10 +731,21 @@ func formulasIn(pk *packages.Package, fd *ast.FuncDecl, fn string, subst map[typ
 	ast.Inspect(fd.Body, func(n ast.Node) bool {
 		switch x := n.(type) {
 		case *ast.AssignStmt:
+			if len(x.Lhs) == len(x.Rhs) && len(x.Lhs) > 1 && (x.Tok == token.ASSIGN || x.Tok == token.DEFINE) {
+				// a, b := e1, e2: each pair is an assignment of its own (the right sides are read before any store,
+				// and the canonical forms are over the names, so a swap reads as `a = b`, `b = a`)
+				curStmt = x
+				guardNode = x
+				for k := range x.Lhs {
+					add(strings.ReplaceAll(exprText(info, x.Lhs[k]), " ", ""), x.Tok, x.Lhs[k], x.Rhs[k], x.Pos())
+				}
+				return true
+			}
 			if len(x.Lhs) != 1 || len(x.Rhs) != 1 {
 				return true
 			}
 			curStmt = x
+			guardNode = x
 			// t = helper(args): the helper's returned formulas are the target's (parameters replaced by the arguments)
 			liftHelper(x.Rhs[0], strings.ReplaceAll(exprText(info, x.Lhs[0]), " ", ""), x.Lhs[0], x.Pos())
 			if hc, ok := ast.Unparen(x.Rhs[0]).(*ast.CallExpr); false && ok && !isConversion(info, hc) && len(polyInlining) < 3 {
@@ -772,6 +789,7 @@ func formulasIn(pk *packages.Package, fd *ast.FuncDecl, fn string, subst map[typ
 				return true
 			}
 			if fobj := callee(info, x); fobj != nil {
+				guardNode = x
 				for i, a := range x.Args {
 					if hasArith(a) || inlinedArith(info, a) {
 						add(fmt.Sprintf("call:%s#%d", fobj.Name(), i), token.ASSIGN, nil, a, x.Pos())
@@ -816,6 +834,84 @@ func formulasIn(pk *packages.Package, fd *ast.FuncDecl, fn string, subst map[typ
 
 // replaceIdentToken replaces every occurrence of the identifier path `from` that stands on its own (not part of a
 // longer name or path) by `to`.
+// identTokens: the identifier-like tokens of a canonical form (a.b.c counts as one token and as its head a).
+func identTokens(form string) []string {
+	isId := func(b byte) bool {
+		return b == '_' || b == '.' || (b >= '0' && b <= '9') || (b >= 'a' && b <= 'z') || (b >= 'A' && b <= 'Z')
+	}
+	var out []string
+	for i := 0; i < len(form); {
+		if !isId(form[i]) || (form[i] >= '0' && form[i] <= '9') || form[i] == '.' {
+			i++
+			continue
+		}
+		j := i
+		for j < len(form) && isId(form[j]) {
+			j++
+		}
+		tok := form[i:j]
+		out = append(out, tok)
+		if k := strings.Index(tok, "."); k > 0 {
+			out = append(out, tok[:k])
+		}
+		i = j
+	}
+	return out
+}
+
+var reviewedTokensMemo = map[string]map[string]bool{}
+
+// reviewedTokens: every identifier that occurs in a reviewed form or as a reviewed target of fn.
+func reviewedTokens(fn string) map[string]bool {
+	if m, ok := reviewedTokensMemo[fn]; ok {
+		return m
+	}
+	m := map[string]bool{}
+	for _, e := range formulaTable {
+		if e.fn != fn {
+			continue
+		}
+		for _, t := range identTokens(e.target) {
+			m[t] = true
+		}
+		for _, list := range [][]string{e.named, e.res, e.guard} {
+			for _, x := range list {
+				for _, t := range identTokens(x) {
+					m[t] = true
+				}
+			}
+		}
+	}
+	for _, e := range cmpTable {
+		if e.fn != fn {
+			continue
+		}
+		for _, t := range identTokens(e.res) {
+			m[t] = true
+		}
+		for _, a := range e.atoms {
+			for _, t := range identTokens(a) {
+				m[t] = true
+			}
+		}
+	}
+	reviewedTokensMemo[fn] = m
+	return m
+}
+
+// newVariableIn: a variable assigned in the function today (a key of own) that occurs in the forms and in no reviewed
+// form of the function.
+func newVariableIn(formsNow []string, own func(string) bool, reviewed map[string]bool, target string) string {
+	for _, x := range formsNow {
+		for _, t := range identTokens(x) {
+			if t != target && own(t) && !reviewed[t] {
+				return t
+			}
+		}
+	}
+	return ""
+}
+
 func replaceIdentToken(s, from, to string) string {
 	isId := func(b byte) bool {
 		return b == '_' || b == '.' || (b >= '0' && b <= '9') || (b >= 'a' && b <= 'z') || (b >= 'A' && b <= 'Z')
@@ -890,7 +986,7 @@ func lhsOrNil(e ast.Expr) ast.Expr {
 
 func addLit(out *[]formulaSite, fn, target, v string, pos token.Pos) {
 	v = "+= " + v
-	*out = append(*out, formulaSite{fn, target, token.ADD_ASSIGN, pos, v, v, v, v, v, "", nil})
+	*out = append(*out, formulaSite{fn, target, token.ADD_ASSIGN, pos, v, v, v, v, v, "", nil, ""})
 }
 
 var formulaHelpers = map[string][]string{}
@@ -983,7 +1079,7 @@ func init() {
 				if s.via != "" {
 					continue
 				}
-				fmt.Printf("%s\t%s\t%s\t%s\t%s\t%s\t%s\t%s\n", s.fn, s.target, s.tok, s.named, s.abs, s.text, s.res, s.ra)
+				fmt.Printf("%s\t%s\t%s\t%s\t%s\t%s\t%s\t%s\t%s\n", s.fn, s.target, s.tok, s.named, s.abs, s.text, s.res, s.ra, s.guard)
 			}
 		}
 		os.Exit(0)
@@ -997,6 +1093,7 @@ type formulaSpec struct {
 	abs        []string // the same with locals/parameters named by type
 	res        []string // the named form with single-definition locals substituted
 	ra         []string // the type-named form with locals substituted
+	guard      []string // per form: the conditions under which the update runs ("" = none recorded), see formulaSite.guard
 	spec       string
 }
 
@@ -1046,6 +1143,7 @@ func ruleFormulaSpec(c *Ctx) {
 	verdicts := make([]verdict, len(formulaTable))
 	// forms of one target among a list of sites
 	type forms struct {
+		guards                     []string
 		named, abs, res, ra, texts []string
 		pos                        token.Pos
 		via                        bool
@@ -1067,6 +1165,7 @@ func ruleFormulaSpec(c *Ctx) {
 			f.res = append(f.res, s.res)
 			f.ra = append(f.ra, s.ra)
 			f.texts = append(f.texts, s.text)
+			f.guards = append(f.guards, s.guard)
 			f.assume = append(f.assume, s.assume...)
 			if s.via != "" {
 				f.via = true
@@ -1171,6 +1270,27 @@ func ruleFormulaSpec(c *Ctx) {
 		}
 		return "", nil
 	}
+	guardPoolWant := map[string]map[string]bool{}
+	for _, e := range formulaTable {
+		for _, g := range e.guard {
+			if guardPoolWant[e.fn] == nil {
+				guardPoolWant[e.fn] = map[string]bool{}
+			}
+			guardAtomsInto(g, guardPoolWant[e.fn])
+		}
+	}
+	gotPools := map[string]map[string]bool{}
+	guardPoolGot := func(fn string) map[string]bool {
+		if p, ok := gotPools[fn]; ok {
+			return p
+		}
+		p := map[string]bool{}
+		for _, s := range all[fn] {
+			guardAtomsInto(s.guard, p)
+		}
+		gotPools[fn] = p
+		return p
+	}
 	for i, e := range formulaTable {
 		sites, ok := all[e.fn]
 		if !ok {
@@ -1233,6 +1353,23 @@ func ruleFormulaSpec(c *Ctx) {
 			switch {
 			case how != "":
 				verdicts[i] = verdict{"ok", how, f.pos, e.spec + note[how]}
+				// the update is the reviewed one; does it still run under the reviewed conditions? The two guards are
+				// compared as propositional formulas over their resolved leaves (guardprop.go), and only when the leaves
+				// line up (`&& !leak` merged into the branch above, so that the else-branch now also takes the leak
+				// case, is decided; a guard with a renamed operand or a new helper predicate is not).
+				if len(e.guard) == len(e.named) && len(f.guards) == len(f.named) {
+					for k := range e.named {
+						for j := range f.named {
+							if f.named[j] != e.named[k] && !(k < len(e.res) && j < len(f.res) && f.res[j] == e.res[k]) {
+								continue
+							}
+							if r, why := guardCompare(e.guard[k], f.guards[j], guardPoolWant[e.fn], guardPoolGot(e.fn)); r == "differ" {
+								verdicts[i] = verdict{"bad", "guard", f.pos, fmt.Sprintf("%s updates %s with the reviewed formula, but under other conditions than reviewed: it %s (now {%s}, reviewed {%s}) — spec: %s", e.fn, e.target, why, f.guards[j], e.guard[k], e.spec)}
+							}
+							break
+						}
+					}
+				}
 				continue
 			case sw != nil:
 				verdicts[i] = verdict{"bad", "", f.pos, fmt.Sprintf("%s computes %s as {%s}: the shape is the reviewed one but it no longer uses %v, which still exist(s) in the function — another value of the same type was put in its place (reviewed: {%s}; spec: %s)", e.fn, e.target, strings.Join(f.texts, " ; "), sw, strings.Join(e.named, " ; "), e.spec)}
@@ -1319,6 +1456,60 @@ func ruleFormulaSpec(c *Ctx) {
 					continue
 				}
 			}
+			// the target is now computed from a variable the reviewed function did not have (a counting loop's `step`
+			// from which the round number is derived): the function was rebuilt around another quantity, and the
+			// reviewed formula says nothing about that — undecided, not a different formula
+			if nv := newVariableIn(f.named, func(t string) bool { return own[t] != nil }, reviewedTokens(e.fn), e.target); nv != "" {
+				verdicts[i] = verdict{status: "missing", how: "newvar", pos: f.pos, msg: fmt.Sprintf("%s computes %s as {%s} from %s, a variable the reviewed function did not have; the reviewed formula is {%s} (%s)", e.fn, e.target, strings.Join(f.named, " ; "), nv, strings.Join(e.named, " ; "), e.spec)}
+				continue
+			}
+			// … or the reviewed steps the target no longer carries are carried by such a new variable (the start value
+			// of the inverse direction kept in `lastRound` and swapped in): same conclusion
+			{
+				rev := reviewedTokens(e.fn)
+				have := map[string]bool{}
+				for _, x := range f.named {
+					have[x] = true
+				}
+				allCarried, carrier := true, ""
+				nMissing := 0
+				for _, x := range e.named {
+					if have[x] {
+						continue
+					}
+					nMissing++
+					carried := false
+					for _, other := range sortedKeys(own) {
+						if other == e.target || rev[other] || strings.ContainsAny(other, "#:.[") {
+							continue
+						}
+						for _, y := range own[other].named {
+							if y == x {
+								carried, carrier = true, other
+							}
+						}
+					}
+					if !carried {
+						allCarried = false
+					}
+				}
+				extra := false
+				for _, x := range f.named {
+					found := false
+					for _, y := range e.named {
+						if x == y {
+							found = true
+						}
+					}
+					if !found {
+						extra = true
+					}
+				}
+				if nMissing > 0 && allCarried && !extra {
+					verdicts[i] = verdict{status: "missing", how: "newvar", pos: f.pos, msg: fmt.Sprintf("%s computes %s as {%s}; the reviewed step(s) it no longer carries are now made on %s, a variable the reviewed function did not have; the reviewed formula is {%s} (%s)", e.fn, e.target, strings.Join(f.named, " ; "), carrier, strings.Join(e.named, " ; "), e.spec)}
+					continue
+				}
+			}
 			// or under another name in the function or a helper of it (the local was re-purposed)
 			verdicts[i] = verdict{"bad", "", f.pos, fmt.Sprintf("%s computes %s as {%s}; in canonical form that is {%s}, the reviewed formula is {%s} — spec: %s", e.fn, e.target, strings.Join(f.texts, " ; "), strings.Join(f.named, " ; "), strings.Join(e.named, " ; "), e.spec)}
 			continue
@@ -1377,7 +1568,7 @@ func ruleFormulaSpec(c *Ctx) {
 		return "+= " + resortMinMax(replaceIdentToken(strings.Join(rest, " + "), t, "§self"))
 	}
 	for i, e := range formulaTable {
-		if verdicts[i].status == "ok" || strings.ContainsAny(e.target, "#:") {
+		if verdicts[i].status == "ok" || verdicts[i].how == "guard" || strings.ContainsAny(e.target, "#:") {
 			continue
 		}
 		sites := all[e.fn]
@@ -1436,7 +1627,7 @@ func ruleFormulaSpec(c *Ctx) {
 		return m
 	}
 	for i, e := range formulaTable {
-		if verdicts[i].status != "missing" || e.target == "err" || strings.ContainsAny(e.target, ":#.[") {
+		if verdicts[i].status != "missing" || verdicts[i].how == "newvar" || e.target == "err" || strings.ContainsAny(e.target, ":#.[") {
 			continue
 		}
 		users, allRes := 0, true
@@ -1459,7 +1650,7 @@ func ruleFormulaSpec(c *Ctx) {
 	// a reviewed assignment that is gone while its target is still a variable of the function was REMOVED (the value the
 	// variable then carries on is the one from before: a stale count, an unrounded balance), not moved or renamed
 	for i, e := range formulaTable {
-		if verdicts[i].status != "missing" || e.target == "err" || strings.ContainsAny(e.target, ":#.[") {
+		if verdicts[i].status != "missing" || verdicts[i].how == "newvar" || e.target == "err" || strings.ContainsAny(e.target, ":#.[") {
 			continue
 		}
 		if _, ok := all[e.fn]; !ok {
@@ -1543,12 +1734,12 @@ func assumptionsAt(info *types.Info, parents map[ast.Node]ast.Node, n ast.Node, 
 				if st == child {
 					break
 				}
-				if is, ok := st.(*ast.IfStmt); ok && is.Else == nil && is.Init == nil && terminates(is.Body) {
+				if is, ok := st.(*ast.IfStmt); ok && is.Else == nil && initOnlyDefines(is.Init) && terminates(is.Body) {
 					addC(is.Cond, true)
 				}
 			}
 		case *ast.IfStmt:
-			if x.Init == nil {
+			if initOnlyDefines(x.Init) {
 				if child == ast.Node(x.Body) {
 					addC(x.Cond, false)
 				} else if child == ast.Node(x.Else) {
@@ -1579,3 +1770,32 @@ func inlinedArith(info *types.Info, e ast.Expr) bool {
 	}
 	return hd.defs == nil && hasArith(hd.ret)
 }
+
+
+// initOnlyDefines: an if statement's init that only introduces locals (`if flat := &flats[vi]; !flat.Slashed {`): the
+// condition is then a condition on what the locals were defined as, like one written on the line below the definition.
+func initOnlyDefines(init ast.Stmt) bool {
+	if init == nil {
+		return true
+	}
+	as, ok := init.(*ast.AssignStmt)
+	return ok && as.Tok == token.DEFINE
+}
+
+// guardOf: the conditions under which node n runs, as sorted resolved NNF conjuncts joined by " & "; tests of errors and
+// of nil are left out (they say the function got this far, not what it decides).
+func guardOf(info *types.Info, parents map[ast.Node]ast.Node, n ast.Node, defs map[types.Object]localDef) string {
+	if n == nil {
+		return ""
+	}
+	var keep []string
+	for _, a := range assumptionsAt(info, parents, n, defs) {
+		if a == "" || strings.Contains(a, "nil") || strings.Contains(a, "err") || strings.Contains(a, "?") {
+			continue
+		}
+		keep = append(keep, a)
+	}
+	sort.Strings(keep)
+	return strings.Join(keep, " & ")
+}
+
